@@ -14,6 +14,8 @@ import C4E.Distributor
 import C4E.Bridge
 import C4E.Lemmas.DistrValidate
 import C4E.Lemmas.DistrFaithful
+import C4E.Lemmas.DistrBlock
+import C4E.Lemmas.DistrStore
 import C4E.Props.C04
 namespace C4E.Props.C03
 open C4E C4E.Distr1
@@ -189,6 +191,203 @@ theorem faithful_sub_step (e : Env) (w w1 : Distr.World) (s : SubD) (x : DecCoin
     simp [hpm]
 
 end FaithfulStep
+
+/-! ### the whole block and whole histories on the code-tied multi-denomination model -/
+
+section FaithfulBlock
+open C4E.Distr C4E.CoinList
+
+/-- the invariant the distributor keeps between blocks, on the code-tied model: every recorded
+    remainder is non-negative (the registered `nonnegative-remains` invariant), every state has an
+    account and no payable state pays into the main account itself, the states have pairwise different
+    store keys, and the main account holds at least what the states record, in every denomination -/
+structure BlockInv (e : Env) (w : Distr.World) : Prop where
+  states : StatesOk e w.states
+  keys : KeysOk w.states
+  u : ∀ d, 0 ≤ UF e d w
+
+/-- two facts about addresses that the model takes from the SDK as data (DESIGN §8): the empty
+    string is no valid bech32 address — stated for the destinations of the configuration -/
+def Bech32Facts (subs : List SubD) : Prop :=
+  ∀ s ∈ subs, (∀ sh ∈ s.shares, sh.dest.bech32Ok = true → sh.dest.id ≠ "") ∧ (s.primary.bech32Ok = true → s.primary.id ≠ "")
+
+theorem properAcc_of_valid (e : Env) (hmod : e.modAddr? "" = none) (a : Account) (h : accountValid e a = true)
+    (hm : a.type ≠ tMain) (hb : a.bech32Ok = true → a.id ≠ "") : ProperAcc a := by
+  rcases accountValid_types e a h with ht | ht | ht | ht
+  · exact absurd ht hm
+  · refine ⟨Or.inr (Or.inr ht), ?_⟩
+    unfold accountValid at h
+    have h1 : ¬ tInternal = tMain := by decide
+    simp only [ht, h1, if_false, if_true, decide_eq_true_eq] at h
+    exact h
+  · refine ⟨Or.inr (Or.inl ht), ?_⟩
+    unfold accountValid at h
+    have h1 : ¬ tBase = tMain := by decide
+    have h2 : ¬ tBase = tInternal := by decide
+    simp only [ht, h1, h2, if_false, if_true, Bool.and_eq_true] at h
+    exact hb h.1
+  · refine ⟨Or.inl ht, ?_⟩
+    unfold accountValid at h
+    have h1 : ¬ tModule = tMain := by decide
+    have h2 : ¬ tModule = tInternal := by decide
+    have h3 : ¬ tModule = tBase := by decide
+    simp only [ht, h1, h2, h3, if_false, if_true, Bool.and_eq_true] at h
+    intro hid
+    rw [hid, hmod] at h
+    simp at h
+
+theorem subProper_of_paramsValid (e : Env) (hmod : e.modAddr? "" = none) (subs : List SubD)
+    (hv : paramsValid e subs = true) (hb : Bech32Facts subs) : ∀ s ∈ subs, SubProper s := by
+  unfold paramsValid at hv
+  simp only [Bool.and_eq_true] at hv
+  intro s hs
+  have hvs := List.all_eq_true.mp hv.1 s hs
+  unfold subValid at hvs
+  simp only [Bool.and_eq_true] at hvs
+  obtain ⟨⟨⟨_, hd⟩, _⟩, _⟩ := hvs
+  unfold destsValid at hd
+  simp only [Bool.and_eq_true] at hd
+  obtain ⟨⟨⟨_, hsh⟩, hprim⟩, _⟩ := hd
+  refine ⟨?_, fun hm => properAcc_of_valid e hmod _ hprim hm (hb s hs).2⟩
+  intro sh hsh' hm
+  have := List.all_eq_true.mp hsh sh hsh'
+  simp only [Bool.and_eq_true] at this
+  exact properAcc_of_valid e hmod _ this.2 hm ((hb s hs).1 sh hsh')
+
+/-- **C03 on the code-tied multi-denomination model, one whole `BeginBlocker`**: for EVERY
+    configuration accepted by `Params.Validate`, every world satisfying the block invariant (any
+    recorded states, any balances, any inflow since the last block) and EVERY pattern of failing bank
+    calls, a block that completes leaves the books balanced in every denomination —
+    `main balance × 10^18 = Σ recorded remains` after the store write — and re-establishes the
+    invariant.  (That the block completes, i.e. does not panic, is C10's part and is not proved here.) -/
+theorem faithful_block_books (e : Env) (henv : EnvOk e) (hmod : e.modAddr? "" = none) (subs : List SubD)
+    (hv : paramsValid e subs = true) (hb32 : Bech32Facts subs)
+    (w0 : Distr.World) (faults : List Nat) (r : BlockRes) (h : Distr.beginBlock e subs w0 faults = .ok r)
+    (hinv : BlockInv e w0) :
+    BlockInv e r.world ∧ ∀ d, UF e d r.world = 0 := by
+  obtain ⟨stored, hst, hok, hkeys, hbooks⟩ := beginBlock_prestore_full e henv subs hv
+    (subProper_of_paramsValid e hmod subs hv hb32) w0 faults r h hinv.states hinv.keys hinv.u
+  have hperm := storeStates_perm stored hkeys.1
+  rw [← hst] at hperm
+  refine ⟨⟨statesOk_perm e hperm hok, keysOk_perm hperm hkeys, ?_⟩, ?_⟩
+  · intro d
+    unfold UF
+    rw [remSumF_perm d hperm]
+    have := hbooks d; omega
+  · intro d
+    unfold UF
+    rw [remSumF_perm d hperm]
+    exact hbooks d
+
+/-- what may happen to the distributor's books between two blocks: the recorded states are
+    untouched (only `BeginBlocker` writes them) and the main account does not lose coins (nobody but
+    the distributor can spend from its module account; the minter and anyone else may add) -/
+def Inflow (e : Env) (w w' : Distr.World) : Prop :=
+  w'.states = w.states ∧ ∀ d, amountOf (w.bank.balance e.mainAddr) d ≤ amountOf (w'.bank.balance e.mainAddr) d
+
+theorem blockInv_inflow (e : Env) (w w' : Distr.World) (h : BlockInv e w) (hi : Inflow e w w') : BlockInv e w' := by
+  obtain ⟨hst, hbal⟩ := hi
+  refine ⟨by rw [hst]; exact h.states, by rw [hst]; exact h.keys, ?_⟩
+  intro d
+  have := h.u d
+  unfold UF at this ⊢
+  rw [hst]
+  have := Int.mul_le_mul_of_nonneg_right (hbal d) (Int.le_of_lt P_pos)
+  omega
+
+/-- the empty distributor (fresh genesis) satisfies the invariant -/
+theorem blockInv_empty (e : Env) : BlockInv e {} := by
+  refine ⟨statesOk_nil e, ⟨by simp [keysOf], by intro s hs; cases hs⟩, ?_⟩
+  intro d
+  simp [UF, Bank.balance, AList.get?, amountOf, remSumF]
+
+/-- worlds reachable by any history of inflows and completed blocks, each block under ANY
+    configuration accepted by `Params.Validate` (parameter updates between blocks are covered) and
+    ANY pattern of failing bank calls -/
+inductive Reach (e : Env) : Distr.World → Prop
+  | init (w : Distr.World) : BlockInv e w → Reach e w
+  | inflow (w w' : Distr.World) : Reach e w → Inflow e w w' → Reach e w'
+  | block (w : Distr.World) (subs : List SubD) (faults : List Nat) (r : BlockRes) :
+      Reach e w → paramsValid e subs = true → Bech32Facts subs →
+      Distr.beginBlock e subs w faults = .ok r → Reach e r.world
+
+/-- **C03 / C14 over histories, on the code-tied model**: the block invariant holds in every
+    reachable world — in particular every recorded remainder is non-negative and the main account
+    covers the recorded remains at all times -/
+theorem reach_blockInv (e : Env) (henv : EnvOk e) (hmod : e.modAddr? "" = none) (w : Distr.World)
+    (h : Reach e w) : BlockInv e w := by
+  induction h with
+  | init w hw => exact hw
+  | inflow w w' _ hi ih => exact blockInv_inflow e w w' ih hi
+  | block w subs faults r _ hv hb hbl ih => exact (faithful_block_books e henv hmod subs hv hb w faults r hbl ih).1
+
+/-- … and immediately after every completed block of such a history the books are balanced exactly,
+    in every denomination, whatever failed in that block or in any earlier one -/
+theorem books_after_every_block (e : Env) (henv : EnvOk e) (hmod : e.modAddr? "" = none) (w : Distr.World)
+    (h : Reach e w) (subs : List SubD) (hv : paramsValid e subs = true) (hb : Bech32Facts subs)
+    (faults : List Nat) (r : BlockRes) (hbl : Distr.beginBlock e subs w faults = .ok r) (d : String) :
+    amountOf (r.world.bank.balance e.mainAddr) d * P = remSumF d r.world.states := by
+  have := (faithful_block_books e henv hmod subs hv hb w faults r hbl (reach_blockInv e henv hmod w h)).2 d
+  unfold UF at this
+  omega
+
+/-- the registered `nonnegative-remains` invariant, as the Go code evaluates it, holds in every
+    reachable world -/
+theorem reach_nonNegativeStates (e : Env) (henv : EnvOk e) (hmod : e.modAddr? "" = none) (w : Distr.World)
+    (h : Reach e w) : Distr.nonNegativeStates w.states = true := by
+  have hinv := reach_blockInv e henv hmod w h
+  unfold Distr.nonNegativeStates
+  apply List.all_eq_true.mpr
+  intro s hs
+  have := anyNegative_of_en _ (hinv.states s hs).1
+  simp [this]
+
+/-! non-vacuity: a concrete environment, a two-level configuration accepted by the validation, a
+    world with inflow in two places, and a block that completes (evaluated by the kernel) -/
+
+def exEnv : Env :=
+  { modules := [⟨"distributor_main_account", "mainaddr", true⟩, ⟨"fee_collector", "feeaddr", false⟩, ⟨"green", "greenaddr", false⟩],
+    blocked := [] }
+
+def exCfg : List SubD :=
+  [ { name := "a", sources := [some ⟨"", tMain, false⟩, some ⟨"fee_collector", tModule, false⟩],
+      primary := ⟨"i1", tInternal, false⟩, burnShare := some (P / 10),
+      shares := [⟨false, "s1", some (P / 3), ⟨"green", tModule, false⟩⟩] },
+    { name := "b", sources := [some ⟨"i1", tInternal, false⟩], primary := ⟨"addr1", tBase, true⟩,
+      burnShare := some 0, shares := [] } ]
+
+def exWorld : Distr.World := { bank := { bal := [("mainaddr", [("uc4e", 1001)]), ("feeaddr", [("uc4e", 7)])] } }
+
+theorem faithful_block_nonvacuous :
+    paramsValid exEnv exCfg = true ∧ exEnv.modAddr? "" = none ∧ (Distr.beginBlock exEnv exCfg exWorld [1]).isOk = true := by
+  refine ⟨by decide +kernel, by decide +kernel, by decide +kernel⟩
+
+theorem exEnv_ok : EnvOk exEnv := by
+  intro n hn
+  unfold Env.modAddr? exEnv at hn
+  simp only [List.find?] at hn
+  by_cases h1 : n = "distributor_main_account"
+  · exact h1
+  · by_cases h2 : n = "fee_collector"
+    · subst h2; revert hn; decide +kernel
+    · by_cases h3 : n = "green"
+      · subst h3; revert hn; decide +kernel
+      · have e1 : ("distributor_main_account" = n) = False := by simp [eq_comm, h1]
+        have e2 : ("fee_collector" = n) = False := by simp [eq_comm, h2]
+        have e3 : ("green" = n) = False := by simp [eq_comm, h3]
+        simp [e1, e2, e3] at hn
+
+theorem exCfg_bech32 : Bech32Facts exCfg := by
+  intro s hs
+  simp only [exCfg, List.mem_cons, List.mem_nil_iff, or_false] at hs
+  rcases hs with rfl | rfl
+  · refine ⟨?_, by intro h; cases h⟩
+    intro sh hsh
+    simp only [List.mem_cons, List.mem_nil_iff, or_false] at hsh
+    subst hsh; intro h; cases h
+  · exact ⟨fun sh hsh => (by cases hsh), fun _ => (by decide)⟩
+
+end FaithfulBlock
 
 /-- full multi-denomination statement over the faithful model (target; see header). -/
 def books_step_full : Prop :=
